@@ -21,7 +21,8 @@ package settings
 //@   requires[registered] forall k in keys(s.patterns): s.patterns[k] != nil && icall("GetPattern", s.patterns[k]) != nil
 //@   modifies *
 //@   loop 0 invariant[best_so_far] (best == nil ==> bestScore == -1) && (best != nil ==> matches(swampName, best) && bestScore == specificity(icall("GetPattern", best)) && icall("GetPattern", best) != nil)
-//@   loop 0 invariant[max_of_visited] forall k in keys(s.patterns): visited(k) && matches(swampName, s.patterns[k]) ==> best != nil && specificity(icall("GetPattern", s.patterns[k])) <= bestScore
+//@   loop 0 invariant[some_best_if_visited_match] forall k in keys(s.patterns): visited(k) && matches(swampName, s.patterns[k]) ==> best != nil
+//@   loop 0 invariant[max_of_visited] forall k in keys(s.patterns): visited(k) && matches(swampName, s.patterns[k]) ==> specificity(icall("GetPattern", s.patterns[k])) <= bestScore
 //@   loop 0 invariant[map_untouched] mapsame(s.patterns)
 //@   csensures[most_specific_match_wins] forall k in keys(s.patterns): matches(swampName, s.patterns[k]) ==> matches(swampName, r) && specificity(icall("GetPattern", s.patterns[k])) <= specificity(icall("GetPattern", r))
 //@   csensures[default_only_without_match] calls("New") > old(calls("New")) ==> forall k in keys(s.patterns): !matches(swampName, s.patterns[k])
